@@ -486,7 +486,7 @@ impl Prop for C05 {
         ]
     }
     fn stream_len(&self, _tier: Tier) -> usize {
-        200
+        360
     }
     fn random_cases(&self, tier: Tier) -> usize {
         tier.pick(100_000, 2_000_000)
